@@ -282,8 +282,15 @@ def m_bi_SourceFileLoader(self, st, pos, kws, k):
 def m_bi_open(self, st, pos, kws, k):
     p = self.as_str(pos[0])
     mode = pos[1] if len(pos) > 1 else kws.get('mode')
+    if mode is None or (isinstance(mode, VStr) and mode.py in ('r', 'rt')):
+        # reading: the text of the file as it is now (an opaque function of its content)
+        self.env_interfere(st)
+        p = self.as_str(pos[0])
+        o = VEnvObj('ReadFile')
+        o.set(st, VStr(p))
+        return self.with_raises(st, [(z3.Not(z3.Select(env_get(st, 'fs_exists'), p)), 'FileNotFoundError')], lambda st: k(st, o))
     if not (isinstance(mode, VStr) and mode.py == 'w'):
-        raise Untranslated('open() with a mode other than "w"')
+        raise Untranslated('open() with a mode other than "w" / "r"')
     self.env_interfere(st)
     self.used_assumptions.add('file-system operations on the cache directory succeed (writable directory, no I/O errors)')
     self.used_assumptions.add('the path of a generated module (.../__pkts__/<module>_<class>.py) is not a bytecode-cache path')
@@ -364,6 +371,12 @@ def m_env_method(self, st, obj, attr, pos, kws, k):
         if attr == 'name':
             return k(st, VStr(p))
         if attr in ('close', 'flush'):
+            return k(st, VNone())
+    if obj.cls == 'ReadFile':
+        p = obj.get(st).z
+        if attr == 'read':
+            return k(st, VStr(z3.Function('content_text', Content, T.S)(z3.Select(env_get(st, 'fs_content'), p))))
+        if attr == 'close':
             return k(st, VNone())
     if obj.cls == 'SourceFileLoader' and attr == 'load_module':
         nm, pth = obj.get(st).items
